@@ -188,6 +188,21 @@ def install_observers():
         rec["end"] = "ok"
     parse_cue_text._c18_orig = orig
     vr._parse_cue_text = parse_cue_text
+
+    # SccLine.process and stl tf.to_model: one record per invocation
+    import ttconv.scc.line as sl, ttconv.stl.tf as tf
+    def wrap(f):
+        def g(*a, **kw):
+            rec = dict(end="open")
+            if TRACE is not None: TRACE.append(rec)
+            try:
+                r = f(*a, **kw)
+            except BaseException as e:
+                rec["end"] = exc_class(e)[1]; raise
+            rec["end"] = "ok"; return r
+        return g
+    sl.SccLine.process = wrap(sl.SccLine.process)
+    tf.to_model = wrap(tf.to_model)
     sr._c18_observed = True
 
 
@@ -293,7 +308,7 @@ def run_input(fmt, data, cfg_index=0, seed=0, time_limit=30, full=False, observe
     rnd = random.Random(seed)
     cfg = READER_CFGS[fmt][cfg_index % len(READER_CFGS[fmt])]
     res = dict(outcome=None, read=None, fails=[], trace=None, stats={})
-    if observe and fmt in ("srt", "vtt"):
+    if observe and fmt in ("srt", "vtt", "scc", "stl"):
         install_observers(); TRACE = []
     old = signal.signal(signal.SIGALRM, _alarm)
     signal.setitimer(signal.ITIMER_REAL, time_limit)
